@@ -50,5 +50,8 @@ pub mod import;
 pub mod util;
 pub use ironcalc_base as base;
 
+#[cfg(ironcalc_verif)]
+pub mod verif;
+
 #[cfg(feature = "mock_time")]
 pub mod mock_time;
